@@ -100,6 +100,18 @@ static void edges(int rounds){ dispatch_queue_t gq=dispatch_get_global_queue(0,0
     dispatch_semaphore_wait(s, DISPATCH_TIME_FOREVER);
     if(box!=tag) fail("a wait satisfied by a signal did not see the memory written before the signal: round",r,0,0);
     dispatch_release(s);
+    // semaphore, polling consumer: the producer writes slot k (plain) and then signals, k = 1..M; the consumer mixes polls, short
+    // timed waits and unbounded waits: its k-th satisfied wait needs k signals, so slot k must be visible - a wait satisfied
+    // without a signal behind it (a permit created out of nothing) reads a slot that has not been written
+    { enum { M=24 }; static long slot[M+1]; memset(slot,0,sizeof slot); dispatch_semaphore_t ps=dispatch_semaphore_create(0); __block _Atomic int pdone=0;
+      dispatch_async(gq, ^{ for(int k=1;k<=M;k++){ if(rnd()%2) usleep(rnd()%150); slot[k]=tag+k; dispatch_semaphore_signal(ps); } atomic_store(&pdone,1); });
+      int got=0; while(got<M && !viol){ int m=(int)(rnd()%3); long r;
+        if(m==0) r=dispatch_semaphore_wait(ps,DISPATCH_TIME_NOW); else if(m==1) r=dispatch_semaphore_wait(ps,dispatch_time(DISPATCH_TIME_NOW,(int64_t)(rnd()%60000)));
+        else r=dispatch_semaphore_wait(ps,DISPATCH_TIME_FOREVER);
+        if(r==0){ got++; if(slot[got]!=tag+got) fail("a dispatch_semaphore_wait was satisfied although the signal it stands for had not been issued (the memory written before that signal is not there): round/wait number",r,got,0); } }
+      for(int w=0;w<5000 && !atomic_load(&pdone);w++) usleep(200);
+      if(!viol && dispatch_semaphore_wait(ps,DISPATCH_TIME_NOW)==0) fail("a permit was left over after every signal had been consumed: round",r,0,0);
+      dispatch_release(ps); }
     // once: every caller sees the initialiser's writes after dispatch_once_f returns
     static dispatch_once_t *pred; static long inited[4]; pred=calloc(1,sizeof *pred); memset(inited,0,sizeof inited);
     dispatch_group_t og=dispatch_group_create();
